@@ -43,7 +43,7 @@ WEIGHTS = {
 TOKENS = ("t1", "t2")
 WEIGHTS["tokens"] = [("add", 12), ("new", 6), ("commit", 10), ("flush", 6), ("rollback", 4), ("expunge", 5), ("expire", 5),
                      ("get", 12), ("gett", 18), ("query", 6), ("queryt", 10), ("refresh", 3), ("delete", 3), ("close", 2),
-                     ("expunge_all", 1), ("touch", 9), ("pickle", 8)]
+                     ("expunge_all", 1), ("touch", 9), ("pickle", 8), ("merge", 9)]
 
 
 # several flushes inside one SAVEPOINT touching the same instance (update, then delete, then a
